@@ -57,6 +57,8 @@ fn run_case(case: &Case, out: &mut Out) {
     "groupby" => suites::groupby_suite::run(case, out),
     "finalize" => suites::finalize_suite::run(case, out),
     "flatten" => suites::flatten_suite::run(case, out),
+    "convert" => suites::convert_suite::run(case, out),
+    "share" => suites::share_suite::run(case, out),
     s => panic!("unknown suite {}", s),
   }
 }
